@@ -164,6 +164,20 @@ def check_row(kind, grid, fn, seed, tables):
     # cross-check the vectorised formula against the real Calculate; if the code no longer is that formula
     # the row is checked with the real Calculate only (coarse grid + Brent polishing on the real code)
     prob = bench.construct(kind, fn)
+    # the function itself (real Calculate) at the published extremiser locations and at the two ends of the box
+    for which, tab in (("min", tables["min"]), ("max", tables["max"])):
+        tval, tloc = float(tab[fn][0]), float(tab[fn][1])
+        got = bench.real_eval(prob, [min(max(tloc, lo), hi)])
+        if not (abs(got - tval) <= 1e-4 + float(tables["lip"][fn]) * 1e-4 * rng):
+            # (the location may be off by 1e-4 of the range: allow the table's own Lipschitz constant times that)
+            fail(who + "the function takes the value %r at the published %simum location %r, the table says %r" %
+                 (got, which, tloc, tval))
+    for end in (lo, hi):
+        got = bench.real_eval(prob, [end])
+        want = float(grid.f_at(fn, end)[0])
+        if not (abs(got - want) <= 1e-9 * (1 + abs(want))):
+            fail(who + "at the end point %r of the box the function takes the value %r, its formula gives %r" %
+                 (end, got, want))
     if not bench.agrees_1d(grid, prob, fn, counter_points(seed, fn, lo, hi)):
         grid = bench.RealGrid(kind)
     v = grid.f(fn)
